@@ -220,8 +220,26 @@ func symOnly(f func(fr *frame, args []value) value) externalFn {
 	}
 }
 
-func strV(t *Term) value { return concretize(t, types.Typ[types.String]) }
-func intV(t *Term) value { return concretize(t, types.Typ[types.Int]) }
+// strV / intV wrap results of symbolic library calls; large terms are named by a fresh
+// variable (with a defining equation on the path) so that terms do not grow exponentially.
+func (fr *frame) strV(t *Term) value { return concretize(fr.nameTerm(t), types.Typ[types.String]) }
+func (fr *frame) intV(t *Term) value { return concretize(fr.nameTerm(t), types.Typ[types.Int]) }
+
+const nameThreshold = 24
+
+func (fr *frame) nameTerm(t *Term) *Term {
+	if t.IsConst() || t.size <= nameThreshold || fr.i.path == nil {
+		return t
+	}
+	p := fr.i.path
+	if v, ok := p.named[t.String()]; ok {
+		return v
+	}
+	v := p.freshVar("t", t.S)
+	p.pc = append(p.pc, tEq(v, t))
+	p.named[t.String()] = v
+	return v
+}
 
 // lastIndexOf introduces a fresh Int constrained to be the last occurrence index.
 func lastIndexOf(p *pathState, s, sub *Term) *Term {
@@ -245,43 +263,43 @@ func initStringIntrinsics() {
 	reg("strings.HasSuffix", symOnly(func(fr *frame, a []value) value { return boolValue(strSuffixOf(lift(a[1]), lift(a[0]))) }))
 	reg("strings.Contains", symOnly(func(fr *frame, a []value) value { return boolValue(strContains(lift(a[0]), lift(a[1]))) }))
 	reg("strings.Index", symOnly(func(fr *frame, a []value) value {
-		return intV(strIndexOf(lift(a[0]), lift(a[1]), mkInt(0)))
+		return fr.intV(strIndexOf(lift(a[0]), lift(a[1]), mkInt(0)))
 	}))
 	reg("strings.IndexByte", symOnly(func(fr *frame, a []value) value {
 		c := lift(a[1])
-		return intV(strIndexOf(lift(a[0]), strFromCode(bvToInt(c, false)), mkInt(0)))
+		return fr.intV(strIndexOf(lift(a[0]), strFromCode(bvToInt(c, false)), mkInt(0)))
 	}))
 	reg("strings.IndexRune", symOnly(func(fr *frame, a []value) value {
 		c := lift(a[1])
-		return intV(strIndexOf(lift(a[0]), strFromCode(bvToInt(c, true)), mkInt(0)))
+		return fr.intV(strIndexOf(lift(a[0]), strFromCode(bvToInt(c, true)), mkInt(0)))
 	}))
 	reg("strings.ContainsRune", symOnly(func(fr *frame, a []value) value {
 		c := lift(a[1])
 		return boolValue(strContains(lift(a[0]), strFromCode(bvToInt(c, true))))
 	}))
 	reg("strings.LastIndex", symOnly(func(fr *frame, a []value) value {
-		return intV(lastIndexOf(needPath(fr), lift(a[0]), lift(a[1])))
+		return fr.intV(lastIndexOf(needPath(fr), lift(a[0]), lift(a[1])))
 	}))
 	reg("strings.LastIndexByte", symOnly(func(fr *frame, a []value) value {
-		return intV(lastIndexOf(needPath(fr), lift(a[0]), strFromCode(bvToInt(lift(a[1]), false))))
+		return fr.intV(lastIndexOf(needPath(fr), lift(a[0]), strFromCode(bvToInt(lift(a[1]), false))))
 	}))
 	reg("strings.TrimPrefix", symOnly(func(fr *frame, a []value) value {
 		s, p := lift(a[0]), lift(a[1])
-		return strV(tIte(strPrefixOf(p, s), strSubstr(s, strLen(p), strLen(s)), s))
+		return fr.strV(tIte(strPrefixOf(p, s), strSubstr(s, strLen(p), strLen(s)), s))
 	}))
 	reg("strings.TrimSuffix", symOnly(func(fr *frame, a []value) value {
 		s, p := lift(a[0]), lift(a[1])
-		return strV(tIte(strSuffixOf(p, s), strSubstr(s, mkInt(0), intSub(strLen(s), strLen(p))), s))
+		return fr.strV(tIte(strSuffixOf(p, s), strSubstr(s, mkInt(0), intSub(strLen(s), strLen(p))), s))
 	}))
 	reg("strings.CutPrefix", symOnly(func(fr *frame, a []value) value {
 		s, p := lift(a[0]), lift(a[1])
 		ok := strPrefixOf(p, s)
-		return tuple{strV(tIte(ok, strSubstr(s, strLen(p), strLen(s)), s)), boolValue(ok)}
+		return tuple{fr.strV(tIte(ok, strSubstr(s, strLen(p), strLen(s)), s)), boolValue(ok)}
 	}))
 	reg("strings.CutSuffix", symOnly(func(fr *frame, a []value) value {
 		s, p := lift(a[0]), lift(a[1])
 		ok := strSuffixOf(p, s)
-		return tuple{strV(tIte(ok, strSubstr(s, mkInt(0), intSub(strLen(s), strLen(p))), s)), boolValue(ok)}
+		return tuple{fr.strV(tIte(ok, strSubstr(s, mkInt(0), intSub(strLen(s), strLen(p))), s)), boolValue(ok)}
 	}))
 	reg("strings.Cut", symOnly(func(fr *frame, a []value) value {
 		s, sep := lift(a[0]), lift(a[1])
@@ -289,7 +307,7 @@ func initStringIntrinsics() {
 		found := intCmp(">=", i, mkInt(0))
 		before := tIte(found, strSubstr(s, mkInt(0), i), s)
 		after := tIte(found, strSubstr(s, intAdd(i, strLen(sep)), strLen(s)), mkStr(""))
-		return tuple{strV(before), strV(after), boolValue(found)}
+		return tuple{fr.strV(before), fr.strV(after), boolValue(found)}
 	}))
 	reg("strings.Join", symOnly(func(fr *frame, a []value) value {
 		xs := a[0].([]value)
@@ -301,10 +319,10 @@ func initStringIntrinsics() {
 			}
 			parts = append(parts, lift(x))
 		}
-		return strV(strConcat(parts...))
+		return fr.strV(strConcat(parts...))
 	}))
 	reg("strings.ReplaceAll", symOnly(func(fr *frame, a []value) value {
-		return strV(strReplaceAll(lift(a[0]), lift(a[1]), lift(a[2])))
+		return fr.strV(strReplaceAll(lift(a[0]), lift(a[1]), lift(a[2])))
 	}))
 	reg("strings.Replace", symOnly(func(fr *frame, a []value) value {
 		n, ok := a[3].(int)
@@ -312,10 +330,10 @@ func initStringIntrinsics() {
 			panic(engineError("strings.Replace with symbolic n"))
 		}
 		if n < 0 {
-			return strV(strReplaceAll(lift(a[0]), lift(a[1]), lift(a[2])))
+			return fr.strV(strReplaceAll(lift(a[0]), lift(a[1]), lift(a[2])))
 		}
 		if n == 1 {
-			return strV(strReplaceFirst(lift(a[0]), lift(a[1]), lift(a[2])))
+			return fr.strV(strReplaceFirst(lift(a[0]), lift(a[1]), lift(a[2])))
 		}
 		panic(engineError("strings.Replace with n > 1 on symbolic string"))
 	}))
@@ -327,23 +345,23 @@ func initStringIntrinsics() {
 	}))
 	reg("strings.Compare", symOnly(func(fr *frame, a []value) value {
 		x, y := lift(a[0]), lift(a[1])
-		return intV(tIte(tEq(x, y), mkInt(0), tIte(strLt(x, y), mkInt(-1), mkInt(1))))
+		return fr.intV(tIte(tEq(x, y), mkInt(0), tIte(strLt(x, y), mkInt(-1), mkInt(1))))
 	}))
 	reg("strings.Count", symOnly(func(fr *frame, a []value) value {
 		// count by forking over occurrences
 		s, sep := lift(a[0]), lift(a[1])
 		if sep.IsConst() && sep.Str == "" {
-			return intV(intAdd(strLen(s), mkInt(1)))
+			return fr.intV(intAdd(strLen(s), mkInt(1)))
 		}
 		n := 0
 		rest := s
 		for {
-			i := strIndexOf(rest, sep, mkInt(0))
+			i := fr.nameTerm(strIndexOf(rest, sep, mkInt(0)))
 			if fr.decideValue(boolValue(intCmp("<", i, mkInt(0)))) {
 				return n
 			}
 			n++
-			rest = strSubstr(rest, intAdd(i, strLen(sep)), strLen(rest))
+			rest = fr.nameTerm(strSubstr(rest, intAdd(i, strLen(sep)), strLen(rest)))
 			if n > needPath(fr).strBudget() {
 				panic(pathAbort{reason: "bound: strings.Count"})
 			}
@@ -353,21 +371,37 @@ func initStringIntrinsics() {
 		if sep.IsConst() && sep.Str == "" {
 			panic(engineError("strings.Split with empty separator on symbolic string"))
 		}
+		p := needPath(fr)
 		var pieces []value
 		rest := s
 		for {
 			if max > 0 && len(pieces) == max-1 {
-				pieces = append(pieces, strV(rest))
+				pieces = append(pieces, fr.strV(rest))
 				return pieces
 			}
-			i := strIndexOf(rest, sep, mkInt(0))
-			if fr.decideValue(boolValue(intCmp("<", i, mkInt(0)))) {
-				pieces = append(pieces, strV(rest))
-				return pieces
+			if sep.IsConst() && len(sep.Str) == 1 && fr.i.cfg.SplitEncoding == "wordeq" {
+				// word-equation encoding (exact for one-character separators):
+				// rest = piece ++ sep ++ rest' with sep not in piece
+				if !fr.decideValue(boolValue(strContains(rest, sep))) {
+					pieces = append(pieces, fr.strV(rest))
+					return pieces
+				}
+				piece := p.freshVar("piece", sortStr)
+				next := p.freshVar("rest", sortStr)
+				p.assume(tEq(rest, strConcat(piece, sep, next)))
+				p.assume(tNot(strContains(piece, sep)))
+				pieces = append(pieces, piece)
+				rest = next
+			} else {
+				i := fr.nameTerm(strIndexOf(rest, sep, mkInt(0)))
+				if fr.decideValue(boolValue(intCmp("<", i, mkInt(0)))) {
+					pieces = append(pieces, fr.strV(rest))
+					return pieces
+				}
+				pieces = append(pieces, fr.strV(strSubstr(rest, mkInt(0), i)))
+				rest = fr.nameTerm(strSubstr(rest, intAdd(i, strLen(sep)), strLen(rest)))
 			}
-			pieces = append(pieces, strV(strSubstr(rest, mkInt(0), i)))
-			rest = strSubstr(rest, intAdd(i, strLen(sep)), strLen(rest))
-			if len(pieces) > needPath(fr).strBudget()+1 {
+			if len(pieces) > p.strBudget()+1 {
 				panic(pathAbort{reason: "bound: strings.Split"})
 			}
 		}
@@ -390,14 +424,14 @@ func initStringIntrinsics() {
 		if fr.decideValue(boolValue(tOr(strPrefixOf(sp, s), strSuffixOf(sp, s), strContains(s, mkStr("\t")), strContains(s, mkStr("\n"))))) {
 			panic(pathAbort{reason: "bound: TrimSpace on symbolic string with surrounding whitespace"})
 		}
-		return strV(s)
+		return fr.strV(s)
 	}))
 
 	// strconv on symbolic values
 	reg("strconv.Itoa", symOnly(func(fr *frame, a []value) value {
 		x := liftIndex(a[0])
 		neg := intCmp("<", x, mkInt(0))
-		return strV(tIte(neg, strConcat(mkStr("-"), strFromInt(intNeg(x))), strFromInt(x)))
+		return fr.strV(tIte(neg, strConcat(mkStr("-"), strFromInt(intNeg(x))), strFromInt(x)))
 	}))
 	reg("strconv.Atoi", symOnly(func(fr *frame, a []value) value {
 		s := lift(a[0])
@@ -428,7 +462,7 @@ func initStringIntrinsics() {
 		return tuple{uint64(0), fr.i.makeError("strconv.ParseUint: parsing: invalid syntax or out of range (symbolic)")}
 	}))
 	reg("strconv.FormatBool", symOnly(func(fr *frame, a []value) value {
-		return strV(tIte(asBoolTerm(a[0]), mkStr("true"), mkStr("false")))
+		return fr.strV(tIte(asBoolTerm(a[0]), mkStr("true"), mkStr("false")))
 	}))
 	reg("strconv.FormatUint", symOnly(func(fr *frame, a []value) value {
 		if b, ok := a[1].(int); !ok || b != 10 {
@@ -438,7 +472,7 @@ func initStringIntrinsics() {
 		if x.S.K == SBV {
 			x = bvToInt(x, false)
 		}
-		return strV(strFromInt(x))
+		return fr.strV(strFromInt(x))
 	}))
 	reg("strconv.FormatInt", symOnly(func(fr *frame, a []value) value {
 		if b, ok := a[1].(int); !ok || b != 10 {
@@ -446,7 +480,7 @@ func initStringIntrinsics() {
 		}
 		x := liftIndex(a[0])
 		neg := intCmp("<", x, mkInt(0))
-		return strV(tIte(neg, strConcat(mkStr("-"), strFromInt(intNeg(x))), strFromInt(x)))
+		return fr.strV(tIte(neg, strConcat(mkStr("-"), strFromInt(intNeg(x))), strFromInt(x)))
 	}))
 
 	// strings.Builder as a side-table string accumulator
@@ -465,7 +499,7 @@ func initStringIntrinsics() {
 		checkPoison("Builder.WriteString", a[1])
 		b := getB(fr, a[0])
 		b.s = strConcat(b.s, lift(a[1]))
-		return tuple{intV(strLen(lift(a[1]))), iface{}}, true
+		return tuple{fr.intV(strLen(lift(a[1]))), iface{}}, true
 	})
 	reg("(*strings.Builder).WriteByte", func(fr *frame, a []value) (value, bool) {
 		b := getB(fr, a[0])
@@ -489,8 +523,8 @@ func initStringIntrinsics() {
 		b.s = strConcat(b.s, lift(bytesToStringTerm(bs)))
 		return tuple{len(bs), iface{}}, true
 	})
-	reg("(*strings.Builder).String", func(fr *frame, a []value) (value, bool) { return strV(getB(fr, a[0]).s), true })
-	reg("(*strings.Builder).Len", func(fr *frame, a []value) (value, bool) { return intV(strLen(getB(fr, a[0]).s)), true })
+	reg("(*strings.Builder).String", func(fr *frame, a []value) (value, bool) { return fr.strV(getB(fr, a[0]).s), true })
+	reg("(*strings.Builder).Len", func(fr *frame, a []value) (value, bool) { return fr.intV(strLen(getB(fr, a[0]).s)), true })
 	reg("(*strings.Builder).Reset", func(fr *frame, a []value) (value, bool) { getB(fr, a[0]).s = mkStr(""); return nil, true })
 	reg("(*strings.Builder).Grow", func(fr *frame, a []value) (value, bool) { return nil, true })
 	reg("(*strings.Builder).Cap", func(fr *frame, a []value) (value, bool) { return 0, true })
@@ -518,15 +552,15 @@ func symAtoi(fr *frame, s *Term, bits int) value {
 	case 0:
 		v := strToInt(s)
 		needPath(fr).assume(intCmp("<", v, mkInt(1<<40))) // bound: decimal literals below 2^40
-		return tuple{intV(v), iface{}}
+		return tuple{fr.intV(v), iface{}}
 	case 1:
 		v := strToInt(strSubstr(s, mkInt(1), strLen(s)))
 		needPath(fr).assume(intCmp("<", v, mkInt(1<<40)))
-		return tuple{intV(v), iface{}}
+		return tuple{fr.intV(v), iface{}}
 	case 2:
 		v := strToInt(strSubstr(s, mkInt(1), strLen(s)))
 		needPath(fr).assume(intCmp("<", v, mkInt(1<<40)))
-		return tuple{intV(intNeg(v)), iface{}}
+		return tuple{fr.intV(intNeg(v)), iface{}}
 	}
 	return tuple{0, fr.i.makeError("strconv.Atoi: parsing: invalid syntax (symbolic)")}
 }
@@ -696,7 +730,7 @@ func initFmtIntrinsics() {
 		if !ok {
 			panic(engineError("fmt.Sprintf with symbolic format"))
 		}
-		return strV(fr.sprintf(f, a[1].([]value), nil)), true
+		return fr.strV(fr.sprintf(f, a[1].([]value), nil)), true
 	})
 	reg("fmt.Errorf", func(fr *frame, a []value) (value, bool) {
 		f, ok := a[0].(string)
@@ -704,7 +738,7 @@ func initFmtIntrinsics() {
 			panic(engineError("fmt.Errorf with symbolic format"))
 		}
 		var wrapped value
-		msg := strV(fr.sprintf(f, a[1].([]value), &wrapped))
+		msg := fr.strV(fr.sprintf(f, a[1].([]value), &wrapped))
 		if wrapped != nil {
 			if w, ok := wrapped.(iface); ok && w.t != nil {
 				pkg := fr.i.prog.ImportedPackage("fmt")
@@ -722,7 +756,7 @@ func initFmtIntrinsics() {
 		for _, x := range a[0].([]value) {
 			parts = append(parts, fr.formatArg('v', "", x))
 		}
-		return strV(strConcat(parts...)), true
+		return fr.strV(strConcat(parts...)), true
 	})
 	reg("fmt.Sprintln", func(fr *frame, a []value) (value, bool) {
 		var parts []*Term
@@ -733,7 +767,7 @@ func initFmtIntrinsics() {
 			parts = append(parts, fr.formatArg('v', "", x))
 		}
 		parts = append(parts, mkStr("\n"))
-		return strV(strConcat(parts...)), true
+		return fr.strV(strConcat(parts...)), true
 	})
 	for _, n := range []string{"fmt.Println", "fmt.Printf", "fmt.Print", "fmt.Fprintf", "fmt.Fprintln", "fmt.Fprint"} {
 		reg(n, func(fr *frame, a []value) (value, bool) { return tuple{0, iface{}}, true })
